@@ -192,6 +192,9 @@ CORNERS = [
     "1e5", "0777", "0x1f", "a-b", "a+b", "2>1", "e>o", "a&&b", "a||b", "a;b|c", "'''", '"""', "''", "a''", "a'''", "~\\", "~ ", "a\n", "\n", "\t", "a\tb\\c", "a\n\\", "a$b\n", "p'x", "f'x",
 ]
 OPENINGS = ["", "'", '"', "r'", 'r"', "'''", '"""']
+# further spellings of an opening quote (outside the theorem's `openings`; the model completer takes any prefix letters, the
+# model reader declines p-strings): raw in either case, the path-string prefixes in both orders, raw triple quotes
+EXTRA_OPENINGS = ["R'", 'R"', "p'", 'p"', "pr'", 'pr"', "rp'", 'rp"', "r'''", 'r"""']
 MODES = ["atEnd", "closedInside", "closedAfter"]
 SEPARATORS = [";", "|", "&&", "||", " and ", " or ", "$(", "@(", "!(", "![", "$[", "@$(", "@!("]
 
@@ -215,6 +218,9 @@ def gen_name(rng):
     return s
 
 
+PREFIX_LETTERS = "rRp"
+
+
 def is_raw(o):
     return "r" in o.lower()
 
@@ -223,7 +229,7 @@ def encode_typed(prefix, o, ctrl):
     """how a user types the characters `prefix` after the opening quote `o`; None = cannot be typed in that style"""
     if o == "":
         return prefix
-    q = o.lstrip("rR")
+    q = o.lstrip(PREFIX_LETTERS)
     if is_raw(o):
         if q[0] in prefix or prefix.endswith("\\") or any(c in prefix for c in "\n\r\x0b\x0c\t"):
             return None
@@ -275,13 +281,25 @@ def model_read(ctx, S, text):
     return dec_read(ctx.driver.call("c18.read", S.hdr, S.extra(text), S.vars_for(text), S.homes_for(text), codes(text)))
 
 
+def is_odd(c):
+    """Lean `oddChar`: a \\w character that can neither start an identifier nor is an ASCII digit"""
+    return re.match(r"\w", c) is not None and not c.isidentifier() and not ("0" <= c <= "9")
+
+
 def split_by_analyser(S, cctx, typed_arg, o, mode):
-    """the analyser cut the opened quote at a command separator / sub-command opener: what it reports as the text before the
-    cursor is not the typed argument (observed on its own output), and the typed text does contain such a token"""
-    if o == "" or mode != "atEnd":
-        return False
-    cut = cctx is None or cctx.command is None or cctx.command.raw_prefix != typed_arg
-    return cut and any(sep in typed_arg[len(o) :] for sep in SEPARATORS)
+    """the analyser does not report the typed argument as the text before the cursor (observed on its own output) AND one of
+    the two known mechanisms is present in the typed text: a command separator / sub-command opener inside an opened quote,
+    or a character whose token value the lexer replaces by its 'Unexpected token' message.  -> finding key | None"""
+    q = o.lstrip(PREFIX_LETTERS)
+    expected = typed_arg + (q if mode == "closedAfter" else "")
+    cut = cctx is None or cctx.command is None or cctx.command.raw_prefix != expected
+    if not cut:
+        return None
+    if o != "" and mode == "atEnd" and any(sep in typed_arg[len(o) :] for sep in SEPARATORS):
+        return "analyser-splits-opened-quote"
+    if any(is_odd(c) for c in typed_arg):
+        return "odd-token"
+    return None
 
 
 def make_entry(S, name, is_dir):
@@ -318,7 +336,7 @@ def run_case(ctx, S, stream, name, o, mode, is_dir, prefix=None, rng=None, known
             p, t = prefix
         if o == "":
             mode = "atEnd"
-        q = o.lstrip("rR")
+        q = o.lstrip(PREFIX_LETTERS)
         typed_arg = o + t
         line0 = "xvrec " + typed_arg
         cursor = len(line0)
@@ -337,7 +355,7 @@ def run_case(ctx, S, stream, name, o, mode, is_dir, prefix=None, rng=None, known
         m_texts, m_reads, classes, seen = model_complete(ctx, S, name, o, typed_empty, mode, is_dir)
         split = split_by_analyser(S, cctx, typed_arg, o, mode)
         if split:
-            classes = classes + ["analyser-splits-opened-quote"]
+            classes = [split] + [c for c in classes if c != split]
         nontrivial = bool(S.cq.name_needs_quotes(name)) or o != ""
         ctx.case(stream, (name, o, t, mode, is_dir), nontrivial, {k: case[k] for k in ("name_repr", "is_dir", "line", "cursor")} | {"completions": [c for c, _ in comps]})
         ctx.count(f"style/{o or 'bare'}/{mode}")
@@ -398,7 +416,7 @@ def run_case(ctx, S, stream, name, o, mode, is_dir, prefix=None, rng=None, known
 
 
 PRIORITY = [
-    "analyser-splits-opened-quote", "lone-quote-cursor-inside", "triple-quote-cursor-inside", "trailing-space", "line-separator", "trailing-backslash",
+    "analyser-splits-opened-quote", "lone-quote-cursor-inside", "triple-quote-cursor-inside", "tilde-entry-cursor-inside", "trailing-space", "line-separator", "trailing-backslash",
     "raw-quote-conflict", "raw-control-char", "triple-quote-end", "dollar-expansion", "tilde-expansion", "bang-unquoted", "python-statement", "odd-token",
 ]
 
@@ -437,10 +455,13 @@ def stream_names(ctx, n_random, single_chars, name="names"):
         if ctx.enough_failures(6):
             break
         is_dir = rng.random() < 0.25
-        # every style for corner names, a sample of styles for the rest
+        # every base style for corner names (plus two of the further spellings), a sample of all styles for the rest
         styles = [(o, m) for o in OPENINGS for m in (MODES if o else ["atEnd"])]
+        extra = [(o, m) for o in EXTRA_OPENINGS for m in MODES]
         if idx >= len(CORNERS):
-            styles = [("", "atEnd")] + rng.sample(styles[1:], 5)
+            styles = [("", "atEnd")] + rng.sample(styles[1:] + extra, 5)
+        else:
+            styles = styles + rng.sample(extra, 2)
         for o, m in styles:
             run_case(ctx, S, name, nm, o, m, is_dir, rng=rng)
 
@@ -642,11 +663,18 @@ LINE_WORDS = ["ls", "echo", "cd", "xvrec", "a", "b.txt", "-l", "--opt=val", "/us
               "p'p", "f'{x}'", "b'b'", "|", "||", "&&", ";", "&", "and", "or", "not", ">", ">>", "2>", "2>&1", "e>o", "<", "$(", "$[", "![", "!(", "@(", "@$(", "@!(", "${", ")", "]", "}", "(", "[", "{",
               "#c", " #c", "\n", "\\\n", "\\", "!", "a!b", "*", "?", "`re`", "g`*`", "=", "x=1", "$X=1", "é", "日本", "😀", "\t", "\x0c", "\r", "\x00", "\x1c", "\x85", "\u2028", "''", '""', "''''''", "'\\'", "@", ":", ",", "..", "import os", "for i in", "def f():",
               "lambda", "1", "1.5", "0x1f", "in", "if", "with", "\n    "]
-LINE_CHARS = list(" '\"$\\\n\t!~#=:@%^+,;&|<>()[]{}*?`-.abr1é\x00\x0c\r\x85")
+LINE_CHARS = list(" '\"$\\\n\t!~#=:@%^+,;&|<>()[]{}*?`-.abr1é\x00\x0c\r\x85²٣")
+
+
+UNCLOSED = ["'q", '"d', "r'raw", "'''t", "'q w", '"my dir/sub', "p'p", 'r"a b', "'a;b", '"""u v']
 
 
 def gen_line(rng):
     r = rng.random()
+    if r < 0.12:
+        # the last argument is an unclosed quote followed by blanks (every cursor position inside them is tried)
+        head = "".join(rng.choice(LINE_WORDS) + " " for _ in range(rng.randint(1, 3)))
+        return head + rng.choice(UNCLOSED) + " " * rng.randint(1, 4)
     if r < 0.65:
         n = rng.randint(1, 6)
         parts = []
@@ -679,11 +707,29 @@ def without_continuations(text, cursor):
 LEADING_CONT = re.compile(r"(?:[ \f\t]*(?:#[^\n]*)?\r?\n)*[ \f\t]*\\\r?\n")
 
 
+def lexer_message_tokens(text):
+    """does the (tolerant, subprocess-mode) lexer hand the analyser a token whose VALUE is its 'Unexpected token' message?"""
+    from xonsh.parsers.lexer import Lexer
+
+    lx = Lexer(tolerant=True, pymode=False)
+    try:
+        lx.input(text)
+        return any(isinstance(t.value, str) and t.value.startswith("Unexpected token:") for t in lx)
+    except Exception:  # noqa: BLE001
+        return False
+
+
 def analyser_key(ctx, text, cursor, exc=None, cmd=None, py=None):
     """known-finding classifiers for the analyser clause: each names ONE mechanism and re-checks it on the observation"""
     if exc is not None:
-        # the subprocess-mode lexer dereferences the (absent) previous token when the very first token is a line continuation
-        if isinstance(exc, AttributeError) and "'end'" in str(exc) and LEADING_CONT.match(text):
+        # the subprocess-mode lexer dereferences the (absent) previous token when a line continuation arrives before any token
+        # that records itself as `last` (only blank / comment lines, `&&`, `||` may precede it): the innermost frame says so
+        import traceback
+
+        frames = traceback.extract_tb(exc.__traceback__)
+        inner = frames[-1] if frames else None
+        if (isinstance(exc, AttributeError) and "'NoneType' object has no attribute 'end'" in str(exc) and inner is not None
+                and inner.name == "handle_error_linecont" and inner.filename.endswith("lexer.py") and LINE_CONT in text):
             return "analyser-raises-on-leading-line-continuation"
         return None
     if cmd is not None and len(cmd.closing_quote) == 3 and not cmd.is_after_closing_quote:
@@ -691,6 +737,9 @@ def analyser_key(ctx, text, cursor, exc=None, cmd=None, py=None):
         for k in (1, 2):
             if cursor - k >= 0 and text[cursor - k : cursor] == cmd.closing_quote[0] * k and recon_cmd(ctx, text, cursor - k, cmd):
                 return "cursor-inside-closing-triple-quote"
+    if any(is_odd(c) for c in text) and lexer_message_tokens(text):
+        # the tokenizer emits an OP token for such a character and the lexer's fallback puts its MESSAGE into the token value
+        return "odd-token"
     if LINE_CONT in text:
         # prefix / suffix are those of the text with the line continuations removed
         t2, c2 = without_continuations(text, cursor)
@@ -735,7 +784,7 @@ def stream_analyser(ctx, n, name="analyser"):
     S = Session.get()
     rng = ctx.rng
     fixed = ["", " ", "ls ", "ls 'a b", "ls 'a b' ", "echo $(ls ", "echo @(", "ls | grep ", "ls; cd ", "ls && cd", "a 'b'c", "ls r'x", "ls '''x", "ls \"a\\\"", "ls a\\\n b", "ls #x", "ls '#x",
-             "![ls ", "$[ls", "echo ${", "ls ~/", "ls 2>", "ls > f", "x = 1", "import ", "ls 'x|y z", "ls \"a;b", "ls 'a\nb", "ls '", "ls ''", "ls '''", "cd 'a'\"b\"", "ls and", "ls and ", "a or b"]
+             "![ls ", "$[ls", "echo ${", "ls 'a b   ", 'ls "my dir/sub    ', "ls r'x  ", "ls '''t   ", "ls 'q' 'w  ", "ls ~/", "ls 2>", "ls > f", "x = 1", "import ", "ls 'x|y z", "ls \"a;b", "ls 'a\nb", "ls '", "ls ''", "ls '''", "cd 'a'\"b\"", "ls and", "ls and ", "a or b"]
     lines = fixed + [gen_line(rng) for _ in range(n)]
     for text in lines:
         if ctx.enough_failures(6):
@@ -797,13 +846,13 @@ def run(ctx):
     )
     try:
         replay_known(ctx)
-        stream_names(ctx, ctx.n(120, 2500), ctx.n(40, None))
-        stream_separators(ctx, ctx.n(40, 400))
-        stream_multi(ctx, ctx.n(25, 300))
+        stream_names(ctx, ctx.n(350, 12000), ctx.n(80, None))
+        stream_separators(ctx, ctx.n(80, 1500))
+        stream_multi(ctx, ctx.n(50, 1500))
         stream_undecodable(ctx)
-        stream_quote_paths(ctx, ctx.n(1500, 20000))
-        stream_reader(ctx, ctx.n(500, 8000))
-        stream_analyser(ctx, ctx.n(350, 6000))
+        stream_quote_paths(ctx, ctx.n(4000, 60000))
+        stream_reader(ctx, ctx.n(1500, 30000))
+        stream_analyser(ctx, ctx.n(900, 20000))
     finally:
         Session.get().close()
 
